@@ -484,7 +484,13 @@ write_code(ostream &out_code,ostream * out_include, InterrogateModuleDef *def) {
       assert(next_index == this_index);
       FunctionRemap *remap = (*ii).second;
 
-      out_code << "  (void *)&" << remap->_wrapper_name << ",\n";
+      if (remap->_wrapper_name.empty()) {
+        // This interface does not generate a separate function for each
+        // wrapper, so there is nothing to point to.
+        out_code << "  (void *)0,\n";
+      } else {
+        out_code << "  (void *)&" << remap->_wrapper_name << ",\n";
+      }
       next_index++;
     }
     while (next_index < num_wrappers + 1) {
